@@ -6,8 +6,7 @@ from .types import parse, guards_in, strip_refs
 from .origin import Resolver, flatten
 from .program import ONCE_FAMILY, STORES_CLOSURE
 
-HM_ENTRY = 'std::collections::HashMap<std::string::String, cachelito_core::cache_entry::CacheEntry<'
-VD_STR = 'std::collections::VecDeque<std::string::String'
+from .names import HM_ENTRY, VD_STR, HASHMAP, STRING, HASHSET
 
 
 def class_of(fam, payload, recv_fields=()):
@@ -22,11 +21,11 @@ def class_of(fam, payload, recv_fields=()):
         return 'TL_ORDER'
     if fam == 'dm':
         q = p.replace(' ', '')
-        if q.startswith('std::string::String,(') and q.endswith(',u64,u64)'):
+        if q.startswith(STRING + ',(') and q.endswith(',u64,u64)'):
             return 'STORE_DM'
         return 'DM:' + p
-    if fam == 'rw' and p.startswith('std::collections::HashMap<std::string::String, '):
-        if 'std::collections::HashSet<std::string::String' in p:
+    if fam == 'rw' and p.startswith('%s<%s, ' % (HASHMAP, STRING)):
+        if '%s<%s' % (HASHSET, STRING) in p:
             for f in reversed(recv_fields):
                 if f.endswith('_to_caches'):
                     return 'REG.' + f
@@ -45,22 +44,22 @@ def class_of(fam, payload, recv_fields=()):
 BLOCKING_FAMILIES = ('mutex', 'rw', 'dm')
 
 LOCK_FNS = {
-    # generic-free callee path suffix -> (family, mode, returns_guard)
-    'lock_api::Mutex::lock': ('mutex', 'x', True),
-    'lock_api::Mutex::try_lock': ('mutex', 'x', True),
-    'lock_api::RwLock::read': ('rw', 'r', True),
-    'lock_api::RwLock::write': ('rw', 'w', True),
-    'lock_api::RwLock::read_recursive': ('rw', 'r', True),
-    'lock_api::RwLock::upgradable_read': ('rw', 'w', True),
-    'lock_api::RwLock::try_read': ('rw', 'r', True),
-    'lock_api::RwLock::try_write': ('rw', 'w', True),
-    'std::sync::Mutex::lock': ('mutex', 'x', True),
-    'std::sync::RwLock::read': ('rw', 'r', True),
-    'std::sync::RwLock::write': ('rw', 'w', True),
-    'std::cell::RefCell::borrow': ('cell', 'r', True),
-    'std::cell::RefCell::borrow_mut': ('cell', 'w', True),
-    'std::cell::RefCell::try_borrow': ('cell', 'r', True),
-    'std::cell::RefCell::try_borrow_mut': ('cell', 'w', True),
+    # generic-free callee path -> (family, mode, returns_guard)
+    'lock_api::mutex::Mutex::lock': ('mutex', 'x', True),
+    'lock_api::mutex::Mutex::try_lock': ('mutex', 'x', True),
+    'lock_api::rwlock::RwLock::read': ('rw', 'r', True),
+    'lock_api::rwlock::RwLock::write': ('rw', 'w', True),
+    'lock_api::rwlock::RwLock::read_recursive': ('rw', 'r', True),
+    'lock_api::rwlock::RwLock::upgradable_read': ('rw', 'w', True),
+    'lock_api::rwlock::RwLock::try_read': ('rw', 'r', True),
+    'lock_api::rwlock::RwLock::try_write': ('rw', 'w', True),
+    'std::sync::poison::mutex::Mutex::lock': ('mutex', 'x', True),
+    'std::sync::poison::rwlock::RwLock::read': ('rw', 'r', True),
+    'std::sync::poison::rwlock::RwLock::write': ('rw', 'w', True),
+    'core::cell::RefCell::borrow': ('cell', 'r', True),
+    'core::cell::RefCell::borrow_mut': ('cell', 'w', True),
+    'core::cell::RefCell::try_borrow': ('cell', 'r', True),
+    'core::cell::RefCell::try_borrow_mut': ('cell', 'w', True),
 }
 DM_GUARD = ('get', 'get_mut', 'iter', 'iter_mut', 'entry', 'try_get', 'try_get_mut', 'try_entry')
 DM_TRANSIENT = ('insert', 'remove', 'contains_key', 'clear', 'len', 'retain', 'is_empty', 'remove_if',
@@ -93,8 +92,9 @@ def acquisition(body, b, t, res=None):
     c = t['callee']
     self_ty = c.get('self_ty') or ''
     res = res or Resolver(body, value_like=False)
-    for suf, (fam, mode, guard) in LOCK_FNS.items():
-        if cn == suf or cn.endswith('::' + suf) or (suf.startswith('lock_api::') and cn.endswith(suf)):
+    if cn in LOCK_FNS:
+        fam, mode, guard = LOCK_FNS[cn]
+        if True:
             payload = _payload_from_self_ty(self_ty)
             if fam == 'cell':
                 st = strip_refs(parse(self_ty))
@@ -114,11 +114,10 @@ def acquisition(body, b, t, res=None):
             payload = ', '.join(a.text for a in st.args[:2]) if st.kind == 'adt' else ''
             mode = 'w' if m in DM_WRITE else 'r'
             return Acq(class_of('dm', payload), 'dm', mode, m in DM_GUARD, b, body, cn, t.get('span'))
-    if cn in ONCE_FAMILY or cn in ('<once_cell::sync::Lazy<T, F> as std::ops::Deref>::deref',):
+    if cn in ONCE_FAMILY:
         return _init_acq(body, b, t, res, cn)
     r = c.get('resolved') or ''
-    if cn == 'std::ops::Deref::deref' and r.startswith('<once_cell::sync::Lazy<') or \
-            cn == 'std::ops::Deref::deref' and r.startswith('<std::sync::LazyLock<'):
+    if cn == 'core::ops::deref::Deref::deref' and (r.startswith('<once_cell::sync::Lazy<') or r.startswith('<std::sync::lazy_lock::LazyLock<')):
         return _init_acq(body, b, t, res, cn)
     return None
 
@@ -259,7 +258,7 @@ class Held:
                         dp = df[3]['discr']
                         if not dp.get('proj') and dp['l'] in self.carriers:
                             ty = parse(self.body.local_ty(dp['l']))
-                            if ty.kind == 'adt' and ty.name == 'std::option::Option':
+                            if ty.kind == 'adt' and ty.name == 'core::option::Option':
                                 dl = dp['l']
             for v, tb in t['targets']:
                 st2 = set(st)
@@ -320,7 +319,7 @@ class LockWorld:
         self.held = {}
         self.bodies = [b for b in prog.bodies.values() if include(b)]
         for b in self.bodies:
-            self.held[b.path] = Held(b, may=True)
+            self.held[b.id] = Held(b, may=True)
         # context: body path -> dict class -> (mode, witness chain)
         self.ctx = defaultdict(dict)
         self._propagate()
@@ -328,14 +327,14 @@ class LockWorld:
     def _propagate(self):
         prog = self.prog
         work = deque(self.bodies)
-        inq = {b.path for b in self.bodies}
+        inq = {b.id for b in self.bodies}
         while work:
             body = work.popleft()
-            inq.discard(body.path)
-            h = self.held[body.path]
-            cctx = self.ctx[body.path]
+            inq.discard(body.id)
+            h = self.held[body.id]
+            cctx = self.ctx[body.id]
             for (blk, cb, how) in prog.call_edges(body):
-                if cb.path not in self.held:
+                if cb.id not in self.held:
                     continue
                 if how == 'stored':
                     continue
@@ -345,17 +344,17 @@ class LockWorld:
                     flow[c] = (m, w)
                 for (l, c, m) in h.held_at(blk):
                     # a guard moved into the call is passed, still held
-                    flow[c] = (_join_mode(flow.get(c, (None,))[0], m), ((body.path, blk, body.loc(blk)),))
+                    flow[c] = (_join_mode(flow.get(c, (None,))[0], m), ((body.id, blk, body.loc(blk)),))
                 cn = callee_name(t)
                 if how == 'closure' and cn in ONCE_FAMILY:
                     a = h.acq.get(blk)
                     if a is not None:
-                        flow[a.cls] = ('x', ((body.path, blk, body.loc(blk)),))
-                tgt = self.ctx[cb.path]
+                        flow[a.cls] = ('x', ((body.id, blk, body.loc(blk)),))
+                tgt = self.ctx[cb.id]
                 changed = False
                 for c, (m, w) in flow.items():
                     if c not in tgt:
-                        chain = w if (c in [x[1] for x in h.held_at(blk)] or c.startswith('INIT:')) and c not in cctx else w + ((body.path, blk, body.loc(blk)),)
+                        chain = w if (c in [x[1] for x in h.held_at(blk)] or c.startswith('INIT:')) and c not in cctx else w + ((body.id, blk, body.loc(blk)),)
                         tgt[c] = (m, chain)
                         changed = True
                     else:
@@ -363,29 +362,29 @@ class LockWorld:
                         if nm != tgt[c][0]:
                             tgt[c] = (nm, tgt[c][1])
                             changed = True
-                if changed and cb.path not in inq:
+                if changed and cb.id not in inq:
                     work.append(cb)
-                    inq.add(cb.path)
+                    inq.add(cb.id)
 
     def events(self):
         """every acquisition with the classes held (locally or by a caller) at that moment"""
         for body in self.bodies:
-            h = self.held[body.path]
-            cctx = self.ctx[body.path]
+            h = self.held[body.id]
+            cctx = self.ctx[body.id]
             for blk, a in h.acq.items():
                 heldset = {}
                 for c, (m, w) in cctx.items():
                     heldset[c] = (m, w)
                 for (l, c, m) in h.held_at(blk):
                     # the receiver's own guard is not "held while acquiring" unless it is another local
-                    heldset[c] = (_join_mode(heldset.get(c, (None,))[0], m), ((body.path, blk, body.loc(blk)),))
+                    heldset[c] = (_join_mode(heldset.get(c, (None,))[0], m), ((body.id, blk, body.loc(blk)),))
                 yield a, heldset
 
     def yields(self):
         for body in self.bodies:
             if body.kind != 'coroutine':
                 continue
-            h = self.held[body.path]
+            h = self.held[body.id]
             for b in range(body.n):
                 if body.term(b)['k'] == 'yield' and not body.blocks[b]['cleanup']:
                     yield body, b, h.held_at(b)
